@@ -77,8 +77,9 @@ StatePrefix(p, st) == CommitPartOk(p, st) /\ PrecommitPartOk(p, st)
 \* replicas whose durable possession of p's tx `id` reached p as a report
 Ackers(p, id) == {r \in Nodes \ {p} : acked[p][r] >= id}
 DurableAckers(p, id) == {r \in Ackers(p, id) : pre[p][id] \in everDur[r]}
-\* the nodes whose committed history authorises a commit on replica r
-Auth(r) == IF syncOn[r] THEN {allowBy[r]} \ {None} ELSE srcs[r]
+\* the nodes whose committed history authorises a commit on replica r: the node it follows at that moment, and the node
+\* whose allowance is in force (asynchronous replication: the nodes it fetched committed transactions from)
+Auth(r) == ((IF syncOn[r] THEN {allowBy[r]} ELSE srcs[r]) \cup {follows[r]}) \ {None}
 PrefixOfCommitted(r, upto, p) == upto <= com[p] /\ upto <= Len(pre[r]) /\ \A k \in 1..upto : pre[r][k] = pre[p][k]
 
 -----------------------------------------------------------------------------
